@@ -21,7 +21,7 @@ TEXT = ("Thin claim: the round-trip sentence of C04 (flatten -> diff -> store ->
         "encoding of the path, the path handed down to a field value extends the incoming path by the owner's identifier and the field key, "
         "and array descriptor identifiers are an injective function of (owner, key) - three open "
         "known findings (F10-F12)."
-        " U5: every return of update that can be a success passes through both per-object passes over the submitted document. U6: delete_object records the deletion of a vanished object under nothing but `its winner is neither a deletion nor a marker` (no scan of the other leaves). U7: DataStorage::read_object enters the character-code branch only after the reserved kinds whose digest is itself a character code ('d', 'e': constants read from MIR) were excluded. U8: unflatten looks a string value up as a reference only under starts_with(STRING_ESCAPE_PREFIX) = false (array elements and descriptor keys exempt).")
+        " U5: every return of update that can be a success passes through both per-object passes over the submitted document. U6: delete_object records the deletion of a vanished object under nothing but `its winner is neither a deletion nor a marker` (no scan of the other leaves). U7: DataStorage::read_object enters the character-code branch only after the reserved kinds whose digest is itself a character code ('d', 'e': constants read from MIR) were excluded. U8: unflatten looks a string value up as a reference only under starts_with(STRING_ESCAPE_PREFIX) = false (array elements and descriptor keys exempt). U6b: nothing delete_object reaches rolls the tree back before the deletion is recorded.")
 TECHNIQUE = 'static analysis over rustc MIR: edge dominance on change tests in update_object/commit, encoder/decoder prefix-table agreement and injectivity of composed identifiers'
 TRUSTED = ["rustc nightly MIR", "effect summaries", "yavomrs returns an empty script for equal sequences"]
 
@@ -258,6 +258,15 @@ def run(facts, res):
                 res.violation("U6", "delete_object|deletion-skipped-under-extra-condition",
                               "delete_object records the deletion only under the additional condition %s: an object whose winner is live can stay in the "
                               "document although it was submitted without it" % extra[:2], s_.loc())
+    # U6b: the deletion is recorded on top of a revision that is (still) in the tree: nothing delete_object reaches rolls the tree back
+    # (RevisionTree::unstage, a retain on the revisions) - dropping the pending edits first leaves the deletion with a parent that is
+    # gone, validate ignores it, and the object the submitted document no longer contains stays alive
+    if dob is not None:
+        for s_ in _is6(facts, dob, lambda t: t.callee is not None and (t.callee.target() == "revisiontree::RevisionTree::unstage" or
+                                                                      (t.callee.name in ("retain", "remove", "clear") and "revision::Revision" in t.callee.full and "HashMap" in t.callee.path))):
+            res.violation("U6", "delete_object|tree-rolled-back-before-deletion",
+                          "delete_object removes revisions from the tree (%s) before it records the deletion: the deletion's parent may be one of the "
+                          "revisions just dropped" % s_.term.callee.name, s_.loc())
     res.floor("U6", "deletion sites in delete_object", n6, 1)
 
     # ------------------------------------------------------------------ U7 reserved digests are dispatched before the character-code test
